@@ -34,7 +34,10 @@ Doc(i) == LET np == Idx(4, i, 1, 19) IN
            pre |-> Pick(<<None, None, Some(<<112, 114, 101>>), Some(<<112, CR, LF, 113>>)>>, i, 3, 23),
            parts |-> [k \in 1..np |-> Part(i + 97 * k)],
            epi |-> Pick(<<None, None, None, Some(<<101, 112, 105>>)>>, i, 5, 29),
-           lws |-> Idx(7, i, 3, 31) = 0]
+           lws |-> Idx(7, i, 3, 31) = 0,
+           \* the line end that belongs to the first delimiter is on the wire although nothing precedes it (RFC 2046: the CRLF preceding the boundary
+           \* delimiter line is part of the delimiter): no preamble part is reported for it
+           lead |-> Pick(<<None, None, Some(<<112, 114, 101>>), Some(<<112, CR, LF, 113>>)>>, i, 3, 23) = None /\ Idx(3, i, 2, 37) = 0]
 
 (* ---------------- expected parse ---------------- *)
 HasCRLF(b) == \E k \in 1..(Len(b) - 1) : b[k] = CR /\ b[k + 1] = LF
